@@ -71,28 +71,31 @@ type request struct {
 	peer int
 	hs   []*types.Header // copy of the headers at reservation time
 	open bool            // still the pending request of its peer
+	old  bool            // handed out in an earlier sync cycle (before the last Reset)
 }
 
 type runner struct {
-	sc       *Scenario
-	q        *dl.VerifC18Queue
-	peers    map[int]*dl.VerifC18Peer
-	hdrs     []*types.Header
-	hdrIdx   map[common.Hash]int
-	hashID   map[common.Hash]uint64
-	rootID   map[common.Hash]uint64
-	txs      map[int]*types.Transaction
-	table    map[string]string // coq list of tx ids -> root id
-	tableOrd []string
-	reqs     []*request
-	cur      map[int]*request // open request per peer
-	steps    []string         // coq text of (op, obs, digest)
-	dirty    map[int]bool     // peers that answered an open request with anything but a non-empty truthful prefix
-	answered map[int]int      // truthful non-empty answers to open requests, per peer
-	finisher string
-	midAt    int // number of steps before the finishing phase (-1: none)
-	midDump  string
-	nops     int
+	sc         *Scenario
+	q          *dl.VerifC18Queue
+	peers      map[int]*dl.VerifC18Peer
+	hdrs       []*types.Header
+	hdrIdx     map[common.Hash]int
+	hashID     map[common.Hash]uint64
+	rootID     map[common.Hash]uint64
+	txs        map[int]*types.Transaction
+	table      map[string]string // coq list of tx ids -> root id
+	tableOrd   []string
+	reqs       []*request
+	cur        map[int]*request // open request per peer
+	steps      []string         // coq text of (op, obs, digest)
+	dirty      map[int]bool     // peers that answered an open request with anything but a non-empty truthful prefix
+	answered   map[int]int      // truthful non-empty answers to open requests, per peer
+	finisher   string
+	cycleStart uint64 // first block number of the current sync cycle
+	foreign    bool   // CancelBodies pushed headers of an earlier cycle into this one: only the order clause is judged
+	midAt      int    // number of steps before the finishing phase (-1: none)
+	midDump    string
+	nops       int
 
 	// oracle state
 	scheduled []*types.Header
@@ -209,6 +212,7 @@ func newRunner(sc *Scenario) *runner {
 	}
 	r.q = dl.VerifC18NewQueue(sc.CacheLen, sc.CacheMem)
 	r.q.Prepare(sc.Start, dl.FullSync)
+	r.cycleStart = sc.Start
 	r.lastDump = r.q.VerifC18Dump()
 	return r
 }
@@ -293,14 +297,14 @@ func (r *runner) illegal(why string) {
 
 // exec runs one operation on the implementation and records it.
 func (r *runner) exec(op OpSpec) {
-	var opS, obsS string
+	var opS, obsS, qop string
 	switch op.K {
 	case "sched":
 		hs := make([]*types.Header, len(op.Hs))
 		for i, k := range op.Hs {
 			hs[i] = r.hdrs[k]
 		}
-		if op.From != r.sc.Start+uint64(len(r.scheduled)) {
+		if op.From != r.cycleStart+uint64(len(r.scheduled)) {
 			r.illegal("Schedule called with a start number other than origin + headers accepted so far")
 		}
 		ins := r.q.Schedule(hs, op.From)
@@ -405,6 +409,9 @@ func (r *runner) exec(op OpSpec) {
 				return
 			}
 		}
+		if rq.old {
+			r.foreign = true
+		}
 		if !rq.open {
 			r.illegal("CancelBodies called with a request that is no longer pending")
 			r.classes["cancel_stale_request"]++
@@ -488,13 +495,43 @@ func (r *runner) exec(op OpSpec) {
 		}
 		opS = "Results"
 		obsS = "XResults [" + strings.Join(xs, "; ") + "]"
+	case "reset": // synchronise(): d.queue.Reset() - a new sync cycle on the same queue object
+		if len(r.cur) > 0 {
+			r.classes["cycle_cut_with_pending_requests"]++
+		}
+		if len(r.lastDump.DonePool) > 0 {
+			r.classes["cycle_cut_with_unretrieved_results"]++
+		}
+		r.q.Reset()
+		for _, rq := range r.reqs {
+			rq.open = false
+			rq.old = true
+		}
+		r.cur = map[int]*request{}
+		r.legal, r.whyNot, r.foreign = true, "", false
+		qop, obsS = "QReset", "XUnit"
+	case "resetpeers": // synchronise(): d.peers.Reset()
+		for _, p := range r.peers {
+			p.Reset()
+		}
+		r.dirty = map[int]bool{}
+		qop, obsS = "QResetPeers", "XUnit"
+	case "prepare": // syncWithPeer(): d.queue.Prepare(origin+1, mode)
+		r.q.Prepare(op.From, dl.FullSync)
+		r.cycleStart = op.From
+		r.scheduled, r.released = nil, nil
+		r.classes["sync_cycles_after_the_first"]++
+		qop, obsS = fmt.Sprintf("QPrepare %d", op.From), "XUnit"
 	default:
 		panic("unknown op " + op.K)
+	}
+	if qop == "" {
+		qop = "Op (" + opS + ")"
 	}
 	d := r.q.VerifC18Dump()
 	r.lastDump = d
 	dig := fmt.Sprintf("(%d,%d,%d,%d,%d)", r.q.PendingBlocks(), len(d.PendPool), len(d.DonePool), d.Offset, d.Processable)
-	r.steps = append(r.steps, fmt.Sprintf("(%s, %s, %s)", opS, obsS, dig))
+	r.steps = append(r.steps, fmt.Sprintf("(%s, %s, %s)", qop, obsS, dig))
 	r.nops++
 	r.checkSafety()
 }
@@ -510,10 +547,13 @@ func (r *runner) checkSafety() {
 		byNum[h.Number.Uint64()] = h.Hash()
 	}
 	for i, x := range r.released {
-		want := r.sc.Start + uint64(i)
+		want := r.cycleStart + uint64(i)
 		if x.Header.Number.Uint64() != want {
 			r.hit(fmt.Sprintf("released sequence broken: position %d carries block %d, expected %d", i, x.Header.Number.Uint64(), want))
 			return
+		}
+		if r.foreign {
+			continue
 		}
 		if hh, ok := byNum[want]; !ok || hh != x.Header.Hash() {
 			r.hit(fmt.Sprintf("released block %d is not the header accepted by Schedule for that number", want))
@@ -835,185 +875,223 @@ func genScenario(rng *vf.Rng, kind int) *runner {
 	}
 	body := func(h *types.Header) []int { return sc.Headers[r.hdrIdx[h.Hash()]].Body }
 	tail := -1
-	for s := 0; s < steps; s++ {
-		c := rng.Intn(100)
-		if next >= n && len(r.released) >= len(r.scheduled) && tail < 0 {
-			tail = 3 + rng.Intn(6) // a few more operations on the drained queue, then stop
-		}
-		if tail == 0 {
-			break
-		}
-		if tail > 0 {
-			tail--
-		}
-		if len(r.lastDump.TaskQueue) == 0 && len(r.cur) == 0 && next < n && rng.Chance(60) {
-			c = 0
-		}
-		switch {
-		case c < 12: // schedule
-			if next >= n && !rng.Chance(20) {
-				continue
+	ncycles := 1
+	if kind != 2 && rng.Chance(35) {
+		ncycles = 2 + rng.Intn(3)
+	}
+	for cyc := 0; cyc < ncycles; cyc++ {
+		if cyc > 0 { // cut the running cycle wherever it is and start another one on the same queue
+			r.checkNothingLost()
+			prev, rel := r.cycleStart, uint64(len(r.released))
+			var ns uint64
+			switch c := rng.Intn(100); {
+			case c < 45 && rel > 0: // the head ended below what was handed out (rollback, rejected fork, cancel before import)
+				ns = prev + uint64(rng.Intn(int(rel)))
+				if rng.Chance(25) {
+					ns = sc.Start + uint64(rng.Intn(int(prev+rel-sc.Start)))
+				}
+				r.classes["cycle_origin_below_released"]++
+			case c < 60:
+				ns = prev
+				r.classes["cycle_origin_same_as_before"]++
+			case c < 85:
+				ns = prev + rel
+				r.classes["cycle_origin_continues"]++
+			default:
+				ns = prev + rel + 1 + uint64(rng.Intn(3))
+				r.classes["cycle_origin_above"]++
 			}
-			k := 1 + rng.Heavy(40)
-			if kind == 2 {
-				k = 1 + rng.Intn(64)
+			if ns >= sc.Start+uint64(n) {
+				ns = sc.Start + uint64(n) - 1
 			}
-			var hs []int
-			for i := 0; i < k && next+i < n; i++ {
-				hs = append(hs, next+i)
+			run(OpSpec{K: "reset"})
+			run(OpSpec{K: "resetpeers"})
+			run(OpSpec{K: "prepare", From: ns})
+			next, tail = int(ns-sc.Start), -1
+			steps = 10 + rng.Heavy(300)
+		} else if ncycles > 1 {
+			steps = 5 + rng.Heavy(200)
+		}
+		for s := 0; s < steps; s++ {
+			c := rng.Intn(100)
+			if next >= n && len(r.released) >= len(r.scheduled) && tail < 0 {
+				tail = 3 + rng.Intn(6) // a few more operations on the drained queue, then stop
 			}
-			from := sc.Start + uint64(len(r.scheduled))
-			bad := rng.Intn(100)
+			if tail == 0 {
+				break
+			}
+			if tail > 0 {
+				tail--
+			}
+			if len(r.lastDump.TaskQueue) == 0 && len(r.cur) == 0 && next < n && rng.Chance(60) {
+				c = 0
+			}
 			switch {
-			case bad < 4 && len(hs) > 1: // gap inside the batch
-				j := 1 + rng.Intn(len(hs)-1)
-				hs = append(hs[:j:j], hs[j+1:]...)
-			case bad < 8 && len(hs) > 0: // a foreign header inside the batch
-				j := rng.Intn(len(hs))
-				hs[j] = base + rng.Intn(4)
-			case bad < 11: // re-announce old headers
-				if next > 0 {
-					j := rng.Intn(next)
-					hs = []int{j}
-					if rng.Bool() {
-						from = sc.Headers[j].Num
+			case c < 12: // schedule
+				if next >= n && !rng.Chance(20) {
+					continue
+				}
+				k := 1 + rng.Heavy(40)
+				if kind == 2 {
+					k = 1 + rng.Intn(64)
+				}
+				var hs []int
+				for i := 0; i < k && next+i < n; i++ {
+					hs = append(hs, next+i)
+				}
+				from := r.cycleStart + uint64(len(r.scheduled))
+				bad := rng.Intn(100)
+				switch {
+				case bad < 4 && len(hs) > 1: // gap inside the batch
+					j := 1 + rng.Intn(len(hs)-1)
+					hs = append(hs[:j:j], hs[j+1:]...)
+				case bad < 8 && len(hs) > 0: // a foreign header inside the batch
+					j := rng.Intn(len(hs))
+					hs[j] = base + rng.Intn(4)
+				case bad < 11: // re-announce old headers
+					if next > 0 {
+						j := rng.Intn(next)
+						hs = []int{j}
+						if rng.Bool() {
+							from = sc.Headers[j].Num
+						}
+					}
+				case bad < 13 && allowIllegal && len(hs) > 0: // caller skips ahead (outside the downloader's discipline)
+					skip := 1 + rng.Intn(3)
+					if next+skip < n {
+						// a header numbered ahead whose parent is the current head does not exist in the
+						// universe; use the foreign "right parent, wrong number" headers instead
+						for k := 0; k < 4; k++ {
+							f := sc.Headers[base+k]
+							if f.Parent == next-1 && f.Parent >= 0 {
+								hs = []int{base + k}
+								from = f.Num
+							}
+						}
+					}
+				case bad < 15: // wrong from
+					from += uint64(1 + rng.Intn(3))
+					if !allowIllegal {
+						continue
+					}
+				case bad < 17: // empty batch
+					hs = nil
+				}
+				before := len(r.scheduled)
+				run(OpSpec{K: "sched", Hs: hs, From: from})
+				// advance over the chain headers that were accepted
+				for _, h := range r.scheduled[before:] {
+					if i := r.hdrIdx[h.Hash()]; i < n && i+1 > next {
+						next = i + 1
 					}
 				}
-			case bad < 13 && allowIllegal && len(hs) > 0: // caller skips ahead (outside the downloader's discipline)
-				skip := 1 + rng.Intn(3)
-				if next+skip < n {
-					// a header numbered ahead whose parent is the current head does not exist in the
-					// universe; use the foreign "right parent, wrong number" headers instead
-					for k := 0; k < 4; k++ {
-						f := sc.Headers[base+k]
-						if f.Parent == next-1 && f.Parent >= 0 {
-							hs = []int{base + k}
-							from = f.Num
+			case c < 40: // reserve
+				p := rng.Intn(npeers)
+				cnt := []int{0, 1, 2, 2, 3, 3, 4, 5, 8, 16, 128}[rng.Intn(11)]
+				run(OpSpec{K: "reserve", Peer: p, Count: cnt})
+			case c < 68: // deliver
+				p := rng.Intn(npeers)
+				rq := r.cur[p]
+				if rq == nil {
+					// pick a busy peer most of the time
+					for _, k := range sortedKeys(r.cur) {
+						if rng.Chance(70) {
+							p, rq = k, r.cur[k]
+							break
 						}
 					}
 				}
-			case bad < 15: // wrong from
-				from += uint64(1 + rng.Intn(3))
-				if !allowIllegal {
+				if rq == nil { // unsolicited
+					if rng.Chance(6) && kind != 3 {
+						run(OpSpec{K: "deliver", Peer: p, Bodies: [][]int{randBody(rng, ntx)}})
+					}
 					continue
 				}
-			case bad < 17: // empty batch
-				hs = nil
-			}
-			before := len(r.scheduled)
-			run(OpSpec{K: "sched", Hs: hs, From: from})
-			// advance over the chain headers that were accepted
-			for _, h := range r.scheduled[before:] {
-				if i := r.hdrIdx[h.Hash()]; i < n && i+1 > next {
-					next = i + 1
+				mode := prof[p]
+				if mode == 5 {
+					mode = rng.Intn(5)
 				}
-			}
-		case c < 40: // reserve
-			p := rng.Intn(npeers)
-			cnt := []int{0, 1, 2, 2, 3, 3, 4, 5, 8, 16, 128}[rng.Intn(11)]
-			run(OpSpec{K: "reserve", Peer: p, Count: cnt})
-		case c < 68: // deliver
-			p := rng.Intn(npeers)
-			rq := r.cur[p]
-			if rq == nil {
-				// pick a busy peer most of the time
-				for _, k := range sortedKeys(r.cur) {
-					if rng.Chance(70) {
-						p, rq = k, r.cur[k]
-						break
+				if mode == 1 && !rng.Chance(15) {
+					continue // staller
+				}
+				var bodies [][]int
+				for _, h := range rq.hs {
+					bodies = append(bodies, body(h))
+				}
+				switch mode {
+				case 2: // lie somewhere
+					j := rng.Intn(len(bodies))
+					switch rng.Intn(4) {
+					case 0:
+						bodies[j] = append([]int{rng.Intn(ntx)}, bodies[j]...)
+					case 1:
+						bodies[j] = nil
+						if len(body(rq.hs[j])) == 0 {
+							bodies[j] = []int{rng.Intn(ntx)}
+						}
+					case 2: // shifted answers
+						bodies = append([][]int{randBody(rng, ntx)}, bodies...)
+					case 3: // swap two
+						k := rng.Intn(len(bodies))
+						bodies[j], bodies[k] = bodies[k], bodies[j]
+					}
+				case 3:
+					bodies = nil
+				case 4:
+					bodies = bodies[:rng.Intn(len(bodies)+1)]
+				case 6: // truthful, non-empty, capped
+					bodies = bodies[:1+rng.Intn(len(bodies))]
+					if len(bodies) > 1 && rng.Chance(60) {
+						bodies = bodies[:1+rng.Intn(len(bodies)-1)]
+					}
+				default:
+					if rng.Chance(8) { // more than asked
+						bodies = append(bodies, randBody(rng, ntx))
 					}
 				}
-			}
-			if rq == nil { // unsolicited
-				if rng.Chance(6) && kind != 3 {
-					run(OpSpec{K: "deliver", Peer: p, Bodies: [][]int{randBody(rng, ntx)}})
-				}
-				continue
-			}
-			mode := prof[p]
-			if mode == 5 {
-				mode = rng.Intn(5)
-			}
-			if mode == 1 && !rng.Chance(15) {
-				continue // staller
-			}
-			var bodies [][]int
-			for _, h := range rq.hs {
-				bodies = append(bodies, body(h))
-			}
-			switch mode {
-			case 2: // lie somewhere
-				j := rng.Intn(len(bodies))
-				switch rng.Intn(4) {
-				case 0:
-					bodies[j] = append([]int{rng.Intn(ntx)}, bodies[j]...)
-				case 1:
-					bodies[j] = nil
-					if len(body(rq.hs[j])) == 0 {
-						bodies[j] = []int{rng.Intn(ntx)}
-					}
-				case 2: // shifted answers
-					bodies = append([][]int{randBody(rng, ntx)}, bodies...)
-				case 3: // swap two
-					k := rng.Intn(len(bodies))
-					bodies[j], bodies[k] = bodies[k], bodies[j]
-				}
-			case 3:
-				bodies = nil
-			case 4:
-				bodies = bodies[:rng.Intn(len(bodies)+1)]
-			case 6: // truthful, non-empty, capped
-				bodies = bodies[:1+rng.Intn(len(bodies))]
-				if len(bodies) > 1 && rng.Chance(60) {
-					bodies = bodies[:1+rng.Intn(len(bodies)-1)]
-				}
-			default:
-				if rng.Chance(8) { // more than asked
-					bodies = append(bodies, randBody(rng, ntx))
-				}
-			}
-			run(OpSpec{K: "deliver", Peer: p, Bodies: bodies})
-			if rng.Chance(4) { // duplicate
 				run(OpSpec{K: "deliver", Peer: p, Bodies: bodies})
-			}
-		case c < 74: // cancel
-			if len(r.reqs) == 0 {
-				continue
-			}
-			var cand []int
-			for i, rq := range r.reqs {
-				if rq.open {
-					cand = append(cand, i)
+				if rng.Chance(4) { // duplicate
+					run(OpSpec{K: "deliver", Peer: p, Bodies: bodies})
 				}
-			}
-			if allowIllegal && rng.Chance(35) { // a request that ended by expiry / revoke / cancel
-				i := rng.Intn(len(r.reqs))
-				ok := !r.reqs[i].open
-				for _, h := range r.reqs[i].req.Headers {
-					if h == nil {
-						ok = false
+			case c < 74: // cancel
+				if len(r.reqs) == 0 {
+					continue
+				}
+				var cand []int
+				for i, rq := range r.reqs {
+					if rq.open {
+						cand = append(cand, i)
 					}
 				}
-				if ok {
-					run(OpSpec{K: "cancel", Req: i})
+				if allowIllegal && rng.Chance(35) { // a request that ended by expiry / revoke / cancel
+					i := rng.Intn(len(r.reqs))
+					ok := !r.reqs[i].open
+					for _, h := range r.reqs[i].req.Headers {
+						if h == nil {
+							ok = false
+						}
+					}
+					if ok {
+						run(OpSpec{K: "cancel", Req: i})
+					}
+					continue
 				}
-				continue
-			}
-			if len(cand) > 0 {
-				run(OpSpec{K: "cancel", Req: cand[rng.Intn(len(cand))]})
-			}
-		case c < 82: // expire
-			var ps []int
-			for i := 0; i < npeers; i++ {
-				if rng.Chance(35) {
-					ps = append(ps, i)
+				if len(cand) > 0 {
+					run(OpSpec{K: "cancel", Req: cand[rng.Intn(len(cand))]})
 				}
+			case c < 82: // expire
+				var ps []int
+				for i := 0; i < npeers; i++ {
+					if rng.Chance(35) {
+						ps = append(ps, i)
+					}
+				}
+				run(OpSpec{K: "expire", Peers: ps})
+			case c < 87: // revoke
+				run(OpSpec{K: "revoke", Peer: rng.Intn(npeers)})
+			default:
+				run(OpSpec{K: "results"})
 			}
-			run(OpSpec{K: "expire", Peers: ps})
-		case c < 87: // revoke
-			run(OpSpec{K: "revoke", Peer: rng.Intn(npeers)})
-		default:
-			run(OpSpec{K: "results"})
 		}
 	}
 	r.checkNothingLost()
@@ -1273,7 +1351,7 @@ func gen(seed uint64, n int, outDir, corpusDir string, exhaustiveDepth, e2eRuns 
 	res.Cases = len(runs)
 	res.Distinct = len(distinct)
 	res.Extra["operations"] = ops
-	res.Rule = "a case is one scripted history on a fresh queue (cache 1..128 slots, start number, chain of 1..300 headers with empty and non-empty blocks, 1..8 peers that are honest / stall / lie / answer empty / answer partially) ending with 'all requests expire, then one peer answers every request truthfully' where that peer is a fresh one or (whenever one exists, 60%) an existing peer that so far only gave truthful non-empty answers, possibly truncating its responses; 18% of the histories have only truthful-but-partial answerers and stallers and are finished by one of those answerers; every operation's return value and a state digest, and the full final state, are compared with the Coq model; 30% of the histories may leave the downloader's discipline (stale CancelBodies, Schedule from a wrong number); non-trivial = at least one request handed out or one block released; distinct by full text. In addition (first shard, oracle only): every sequence of up to 3 (quick) / 4 (thorough) letters of a 13-letter alphabet on 2 peers x 4 blocks x 2 cache slots, each followed by the finishing phase; and a separate end-to-end class (40 quick / 600 thorough runs): the real Downloader.fetchBodies/fetchParts + processFullSyncContent around the real queue with 1..6 scripted peers (honest, truncating, stalling, lying, disconnecting mid-request, answering empty), oracle on the blocks reaching InsertChain (ascending gap-free from the origin, each once, matching body, completion whenever the master is an honest or truncating peer that stayed connected); thorough adds one 4096-slot-cache history that makes Results cut its batch at 2048"
+	res.Rule = "a case is one scripted history of 1 to 4 sync cycles on one queue object (35% have several: each later cycle starts with Reset, the peers' Reset and Prepare at an origin below / equal to / continuing / above what the previous cycle released, the previous cycle being cut wherever it was - requests outstanding, results unretrieved); the oracle judges every cycle relative to its own origin. Each history starts on a fresh queue (cache 1..128 slots, start number, chain of 1..300 headers with empty and non-empty blocks, 1..8 peers that are honest / stall / lie / answer empty / answer partially) ending with 'all requests expire, then one peer answers every request truthfully' where that peer is a fresh one or (whenever one exists, 60%) an existing peer that so far only gave truthful non-empty answers, possibly truncating its responses; 18% of the histories have only truthful-but-partial answerers and stallers and are finished by one of those answerers; every operation's return value and a state digest, and the full final state, are compared with the Coq model; 30% of the histories may leave the downloader's discipline (stale CancelBodies, Schedule from a wrong number); non-trivial = at least one request handed out or one block released; distinct by full text. In addition (first shard, oracle only): every sequence of up to 3 (quick) / 4 (thorough) letters of a 13-letter alphabet on 2 peers x 4 blocks x 2 cache slots, each followed by the finishing phase; and a separate end-to-end class (40 quick / 600 thorough runs): the real Downloader.fetchBodies/fetchParts + processFullSyncContent around the real queue with 1..6 scripted peers (honest, truncating, stalling, lying, disconnecting mid-request, answering empty), oracle on the blocks reaching InsertChain (ascending gap-free from the origin, each once, matching body, completion whenever the master is an honest or truncating peer that stayed connected); thorough adds one 4096-slot-cache history that makes Results cut its batch at 2048"
 	res.Write(filepath.Join(outDir, "result.json"))
 }
 
